@@ -820,11 +820,13 @@ func (e *c02Env) rawBodyFields(b *c02Block) {
 
 // State carried from one decode to the next (recycled decoding containers, buffers appended to): back to back on one
 // goroutine, with nothing else decoded in between,
-//   (1) a body whose container is malformed AFTER its uncles field (withdrawals section of one byte; for the legacy
-//       layout: a malformed transactions section) and whose uncles field is a PREFIX U[:p] of the genuine uncles bytes,
-//   (2) the genuine body with its uncles field replaced by the rest U[p:] (left-over ++ own = genuine): not a body of
-//       this block, must be rejected,
-//   (3) the genuine body: must be accepted; also (1) directly followed by (3).
+//
+//	(1) a body whose container is malformed AFTER its uncles field (withdrawals section of one byte; for the legacy
+//	    layout: a malformed transactions section) and whose uncles field is a PREFIX U[:p] of the genuine uncles bytes,
+//	(2) the genuine body with its uncles field replaced by the rest U[p:] (left-over ++ own = genuine): not a body of
+//	    this block, must be rejected,
+//	(3) the genuine body: must be accepted; also (1) directly followed by (3).
+//
 // Repeated, because pooled objects are per scheduler slot and dropped by the garbage collector.
 func (e *c02Env) carriedState(b *c02Block, reps int) {
 	if b.body == nil {
